@@ -249,6 +249,11 @@ func genC17Err(e *emitter, tier string, rng *rand.Rand) {
 				if obs, ok := out["obs"].(map[string]any); ok && obs["outcome"] == "err" {
 					emit(src, "errpos-run", at2, at2+len(o), obs["err"], "a.p", srcs)
 				}
+				// the same run against the interpreter model: the whole chain (files, offsets, lines, columns)
+				// is the model's - the chain the located-error theorems (C17Runtime) speak of
+				out["gen"], out["key"], out["strict"] = "errpos-run-model", src, true
+				e.stat("errpos-run-model")
+				e.emit(out)
 			}
 		}
 	}
